@@ -156,16 +156,6 @@ def optTok : Option Bool → String
 def resTok : Res → String
   | .ok b => boolTok b | .err => "err"
 
-/-- the hypothesis `ParseAgrees` of `C12.newCond_evaluate`, evaluated on the case: the shortcut
-recognised in the text denotes the predicate the harness says the text parses to -/
-def parseAgrees (t : List Char) (p : Pred) : Bool :=
-  (match tryFastCompare t with
-    | some r => decide (p = .cmp r.denote)
-    | none => true) &&
-  (match tryFastCompound t with
-    | some (isAnd, rs) => decide (chainPred isAnd (rs.map RawCmp.denote) = some p)
-    | none => true)
-
 /-- why the shortcut declined, for the input distribution -/
 def declineTag (c : CondM) : String :=
   match c.compound, c.fast with
@@ -231,7 +221,7 @@ def stepOp (op : List String) (implObs : List (List String)) : Option Step :=
     else
       let c ← newCond t (some p)
       let fast := c.fastPath row
-      let agree := parseAgrees t p
+      let agree := Cond.parseAgrees t p
       let o := [sh, ["cond", "ok"], ["twincond", "ok"], ["fast", optTok fast], ["ev", boolTok (c.evaluate row)],
                 ["gen", resTok (generalEval p row)], ["twin", boolTok (SpecC12.generalDecision (.paren p) row)]]
       let o := if agree then o else o ++ [["parse-table-assumption-broken"]]
